@@ -47,7 +47,7 @@ REQUIRED_PROBES = {"quick": ["observer_before_last_mutation", "raw_value_object_
                              "caseless_duplicate_name", "permutation_moved_something", "amz_in_history",
                              "amz_added_two_or_more", "subtree_from_ical", "zoned_dateutil", "zoned_pytz",
                              "zoned_zoneinfo", "list_valued_parameter", "setter_barrier", "noise_parse", "noise_serialise",
-                             "mixed_zone_list", "params_mutated_in_place", "property_deleted", "value_payload_mutated_in_place"]}
+                             "mixed_zone_list", "constructed_from_mapping", "params_mutated_in_place", "property_deleted", "value_payload_mutated_in_place"]}
 REQUIRED_PROBES["thorough"] = REQUIRED_PROBES["quick"]
 
 KINDS = ["VEVENT", "VTODO", "VJOURNAL", "VFREEBUSY", "VTIMEZONE", "VALARM", "X-COMP"]
@@ -211,6 +211,9 @@ PROP_MENU = {
     "VALARM": ["TRIGGER", "ACTION", "REPEAT", "DURATION", "DESCRIPTION", "ATTENDEE", "SUMMARY", "x-alarm"],
     "X-COMP": ["SUMMARY", "DTSTART", "X-Foo", "x-foo", "COMMENT", "RDATE", "Zz-last", "a-first"],
 }
+# names a component may be constructed with (text-valued everywhere); case variants of one name never meet
+CTOR_NAMES = ["summary", "UID", "Location", "description", "COMMENT", "contact", "Status", "CLASS", "X-Ctor", "x-born",
+              "Summary", "uid", "LOCATION", "a-first", "Zz-last", "X-ROOM-7", "x-room-07"]
 MULTI = {"COMMENT", "ATTENDEE", "X-MULTI", "RDATE", "EXDATE", "FREEBUSY", "ATTACH", "CONTACT", "RRULE", "CATEGORIES"}
 RAW_CLASSES = {"dt": "vDatetime", "date": "vDate", "td": "vDuration", "text": "vText", "int": "vInt",
                "uri": "vUri", "caladdress": "vCalAddress", "period": "vPeriod"}
@@ -242,7 +245,19 @@ def generate(rng, cfg):
             comps[nid] = kind
             depth[nid] = depth[parent] + 1
             names_used[nid] = {}
-            trace.append([0, "new_comp", {"id": nid, "kind": kind}])
+            step = {"id": nid, "kind": kind}
+            if rng.random() < 0.4:
+                # the component is born with content: Cls(mapping) / Cls(pairs) / Cls(**kwargs), names in any case
+                form = rng.choice(["dict", "pairs", "kwargs", "ordered"])
+                menu = CTOR_NAMES if form != "kwargs" else [n for n in CTOR_NAMES if n.isidentifier()]
+                items, seen_u = [], set()
+                for name in rng.sample(menu, rng.randint(2, 5)):
+                    if name.upper() not in seen_u:
+                        seen_u.add(name.upper())
+                        items.append([name, f"c{nid}x{len(items)}"])
+                        names_used[nid][name.upper()] = 1
+                step["init"] = {"form": form, "items": items}
+            trace.append([0, "new_comp", step])
             # attach now or later
             trace.append([0, "attach", {"parent": parent, "child": nid, "_late": rng.random() < 0.4,
                                         "direct": rng.random() < 0.25}])
@@ -348,7 +363,7 @@ def abstract_sig(run):
         if op in ("add", "setitem"):
             parts.append(f"{op}:{a['comp']}:{a['name'].upper()}:{a['vk']}:{len(a['params'])}:{a.get('raw', '')}")
         elif op == "new_comp":
-            parts.append(f"new:{a['kind']}")
+            parts.append(f"new:{a['kind']}" + (":" + a["init"]["form"] + str(len(a["init"]["items"])) if a.get("init") else ""))
         elif op == "setattr":
             parts.append(f"set:{a['attr']}:{a['v'][0]}")
         elif op == "observe":
@@ -434,6 +449,7 @@ class Built:
         self.attached = set()
         self.observations = []
         self.mutated = []    # unique parameter names written into stored values after the fact
+        self.amz_objs = []   # VTIMEZONE objects that add_missing_timezones() put into the calendar
         self.error = None
 
 
@@ -485,12 +501,31 @@ def run_variant(trace, res, with_observers, tag, stepbase=0, checks=True):
             res.steps += 1
         try:
             if op == "new_comp":
-                k = klass.get(a["kind"])
-                comp = k() if k else C.Component()
-                if not k:
+                k = klass.get(a["kind"]) or C.Component
+                names = {}
+                init = a.get("init")
+                if init:
+                    vals = [(n, P.vText(t)) for n, t in init["items"]]
+                    form = init["form"]
+                    if form == "dict":
+                        comp = k(dict(vals))
+                    elif form == "pairs":
+                        comp = k(vals)
+                    elif form == "kwargs":
+                        comp = k(**dict(vals))
+                    else:
+                        from collections import OrderedDict
+                        comp = k(OrderedDict(vals))
+                    for n, t in init["items"]:
+                        names[n.upper()] = [t]
+                    if checks:
+                        res.probe("constructed_from_mapping")
+                else:
+                    comp = k()
+                if k is C.Component:
                     comp.name = a["kind"]
                 B.objs[a["id"]] = comp
-                B.model[a["id"]] = {"kind": a["kind"], "names": {}, "children": [], "parsed": False}
+                B.model[a["id"]] = {"kind": a["kind"], "names": names, "children": [], "parsed": False}
             elif op == "from_ical":
                 comp = C.Component.from_ical(a["text"])
                 B.objs[a["id"]] = comp
@@ -652,18 +687,34 @@ def run_variant(trace, res, with_observers, tag, stepbase=0, checks=True):
                 if comp is None:
                     res.skipped += 1
                     continue
-                n0 = len(comp.subcomponents)
+                before = {id(x) for x in comp.subcomponents}
                 if a.get("narrow"):
                     from datetime import date
                     comp.add_missing_timezones(first_date=date(2019, 1, 1), last_date=date(2022, 1, 1))
                 else:
                     comp.add_missing_timezones()
-                added = len(comp.subcomponents) - n0
-                B.model[0]["amz_added"] = B.model[0].get("amz_added", 0) + added
-                B.model[0]["children"].extend([("amz", i) for i in range(added)])
+                # where the library puts the new VTIMEZONEs is its choice (and part of the bytes every incarnation
+                # must agree on); the components attached by the client keep their order among themselves
+                m0 = B.model[0]
+                child_of = {id(B.objs[k]): k for k in m0["children"] if not isinstance(k, tuple) and k in B.objs}
+                child_of.update({id(o): ("amz", i) for i, o in enumerate(B.amz_objs)})
+                new_children, new_objs = [], []
+                for sub in comp.subcomponents:
+                    k = child_of.get(id(sub))
+                    if k is None and id(sub) not in before:
+                        B.amz_objs.append(sub)
+                        k = ("amz", len(B.amz_objs) - 1)
+                        new_objs.append(sub)
+                    if k is not None:
+                        new_children.append(k)
+                if [k for k in new_children if not isinstance(k, tuple)] != [k for k in m0["children"] if not isinstance(k, tuple)]:
+                    res.violate("C10/subcomponent-order/changed-by-add_missing_timezones", stepno,
+                                f"attached {m0['children']!r}, now {new_children!r}")
+                m0["children"] = new_children
+                added = len(new_objs)
+                m0["amz_added"] = m0.get("amz_added", 0) + added
                 if checks:
-                    res.observe(stepno, "add_missing_timezones",
-                                [str(dict.get(x, "TZID")) for x in comp.subcomponents[n0:]])
+                    res.observe(stepno, "add_missing_timezones", [str(dict.get(x, "TZID")) for x in new_objs])
                 if checks:
                     res.probe("amz_in_history")
                     if added >= 2:
@@ -917,6 +968,12 @@ def _check_wire(res, stepno, bs, bu, B):
 
 def simplify_step(step):
     c, op, a = step
+    if op == "new_comp" and a.get("init"):
+        yield [c, op, {k: v for k, v in a.items() if k != "init"}]
+        items = a["init"]["items"]
+        for i in range(len(items)):
+            if len(items) > 1:
+                yield [c, op, dict(a, init=dict(a["init"], items=items[:i] + items[i + 1:]))]
     if op in ("add", "setitem"):
         if a.get("params"):
             for i in range(len(a["params"])):
